@@ -615,6 +615,46 @@ func (e *c06Env) write(p *c06Peer, doc int, kind string, why string) {
 	e.run.Count("local_write_gave_up", 1)
 }
 
+// twinWrite makes the SAME edit on both peers: same parent revision and same body, hence the same revision-tree id, but
+// (version-vector protocol) two different current versions. Only done when both peers hold the document live at the same
+// revision; first = the peer that writes first (the other one's version is the newer one).
+func (e *c06Env) twinWrite(doc int, first string) {
+	id := e.docIDs[doc]
+	a, p := e.A.readMeta(id), e.P.readMeta(id)
+	if !(a.Exists && p.Exists && !a.Deleted && !p.Deleted && a.Rev == p.Rev && a.Rev != "") {
+		e.tr("twin-write %s skipped (peers do not hold the same live revision)", id)
+		e.run.Count("twin_writes_skipped", 1)
+		return
+	}
+	e.writeN++
+	marker := fmt.Sprintf("%s-c%d-twin-w%d-%s", e.c.Tag, e.c.Index, e.writeN, id)
+	order := []*c06Peer{e.A, e.P}
+	if first == "passive" {
+		order = []*c06Peer{e.P, e.A}
+	}
+	for _, peer := range order {
+		resp := peer.rt.SendAdminRequest("PUT", "/{{.keyspace}}/"+id+"?rev="+a.Rev, fmt.Sprintf(`{"marker":%q,"n":%d}`, marker, e.writeN))
+		if resp.Code != http.StatusCreated && resp.Code != http.StatusOK {
+			// the replication moved the document meanwhile: the other half is then an ordinary edit
+			e.tr("%s: twin edit of %s -> %d %s", peer.name, id, resp.Code, c06Trunc(resp.Body.String(), 120))
+			e.run.Count("twin_write_halves_refused", 1)
+			continue
+		}
+		var wr struct {
+			Rev string `json:"rev"`
+		}
+		_ = json.Unmarshal(resp.Body.Bytes(), &wr)
+		e.traceMu.Lock()
+		e.acked = append(e.acked, c06Ack{Peer: peer.name, Doc: id, Kind: "edit", Rev: wr.Rev, Parent: a.Rev, Marker: marker})
+		e.written[id][marker] = true
+		e.traceMu.Unlock()
+		e.tr("%s: twin edit %s (parent %q) -> %s", peer.name, id, a.Rev, wr.Rev)
+		e.run.Count("local_writes", 1)
+		e.run.Count("local_edit", 1)
+		e.run.Count("twin_write_halves", 1)
+	}
+}
+
 // ---------------------------------------------------------------------------------------------
 // replication control (REST for actions and statistics; in-package per-direction state for run boundaries)
 
@@ -1026,6 +1066,16 @@ func c06GenScript(r *vlib.Rand) []c06Step {
 			st = append(st, c06Step{Op: "arm-pull-fault", Peer: "active", Doc: r.Intn(c06NumDocs)})
 		}
 	}
+	if r.Chance(1, 3) {
+		// both peers make the same edit (same parent, same body = same revision-tree id, two current versions) once they agree
+		st = append(st, c06Step{Op: "start"}, c06Step{Op: "await"}, c06Step{Op: "stop"})
+		for d := 0; d < c06NumDocs; d++ {
+			st = append(st, c06Step{Op: "twin-write", Peer: peer(), Doc: d})
+		}
+		if r.Bool() {
+			st = append(st, c06Step{Op: "start"}, c06Step{Op: "await"}, c06Step{Op: "write", Peer: peer(), Doc: r.Intn(c06NumDocs), Kind: "put"})
+		}
+	}
 	return st
 }
 
@@ -1054,6 +1104,8 @@ func (e *c06Env) execute() bool {
 		switch s.Op {
 		case "write":
 			e.write(e.peer(s.Peer), s.Doc, s.Kind, "")
+		case "twin-write":
+			e.twinWrite(s.Doc, s.Peer)
 		case "start":
 			if e.running[c06ReplID] {
 				if c.Continuous {
